@@ -16,9 +16,10 @@ def _stability(uname, seed):
         f.write(unit.text())
     runs = []
     for i in range(3):
-        r = verus.run_verus(unit.gen_path, ["--rlimit", "5", "--smt-option", "smt.random_seed=%d" % (seed + i + 1)])
+        half = max(1, unit.rlimit // 2)
+        r = verus.run_verus(unit.gen_path, ["--rlimit", str(half), "--smt-option", "smt.random_seed=%d" % (seed + i + 1)])
         s = verus.summarize(r)
-        runs.append({"seed": seed + i + 1, "rlimit": 5, "ok": s["ok"], "verified": s["verified"], "errors": s["errors"],
+        runs.append({"seed": seed + i + 1, "rlimit": half, "ok": s["ok"], "verified": s["verified"], "errors": s["errors"],
                      "smt_ms": s["smt_ms"]})
     return runs
 
@@ -55,7 +56,7 @@ def _mutant(idx, m):
     unit.gen_path = os.path.join(driver.BUILD, "selftest_m%d.rs" % idx)
     with open(unit.gen_path, "w") as f:
         f.write(unit.text())
-    r = verus.run_verus(unit.gen_path, ["--multiple-errors", "5"])
+    r = verus.run_verus(unit.gen_path, ["--multiple-errors", "5", "--rlimit", str(unit.rlimit)])
     s = verus.summarize(r)
     fl, und = verus.classify(r, unit)
     shutil.rmtree(root, ignore_errors=True)
